@@ -402,7 +402,32 @@ pub fn pending_timers() -> usize {
 
 pub fn init_process() {
   let _ = rxrust::scheduler::NEW_TIMER_FN.set(virtual_timer);
-  std::panic::set_hook(Box::new(|_| {}));
+  // Silent, but remembered: rxRust's scheduler wraps every task in catch_unwind and keeps the panic in the task
+  // handle, so a panic (or the lock model's "would block") inside a scheduled task would otherwise vanish.
+  // Engine aborts use resume_unwind and never come through here.
+  std::panic::set_hook(Box::new(|info| {
+    let msg = if let Some(s) = info.payload().downcast_ref::<&str>() {
+      s.to_string()
+    } else if let Some(s) = info.payload().downcast_ref::<String>() {
+      s.clone()
+    } else {
+      "panic (non-string payload)".to_string()
+    };
+    PANICS.with(|p| {
+      if let Ok(mut p) = p.try_borrow_mut() {
+        if p.len() < 4 {
+          p.push(msg)
+        }
+      }
+    });
+  }));
+}
+
+thread_local! {
+  pub static PANICS: RefCell<Vec<String>> = RefCell::new(vec![]);
+}
+pub fn take_panics() -> Vec<String> {
+  PANICS.with(|p| p.try_borrow_mut().map(|mut p| std::mem::take(&mut *p)).unwrap_or_default())
 }
 
 // ---------------------------------------------------------------- ANY executor
